@@ -414,3 +414,314 @@ Example C05_ok_hypothesis_needed :
   (* the same pack followed by a second assignment of the component is fine: the last assignment wins *)
   refines_on true 16 cis3 (removelast script_x ++ [XoAssign 0 0 1 (Some 6%Z); XoUnlock]) = true.
 Proof. split; [exact cis3_ok|]. repeat split; vm_compute; reflexivity. Qed.
+
+(* ------------------------------------------------------------------------------------------------------------ *)
+(* Deferred mode, part 4: THE MODEL RUN IS TOTAL over the alphabet with lock / unlock -- the hypothesis
+   `mrun typed n cis ops = Ok (s, hs)` of part 3 is discharged (proofs/LockedTotalPack.v, LockedTotalFlush.v,
+   LockedTotalMain.v, LockedTotalSpec.v), as C02_model_run_total does for the unlocked alphabet.
+
+   Every Err of the model on this alphabet is excluded by the refinement relation LR of part 3, the shape invariant
+   TI of C02 (version storage, registered component ids), the contract x_viol = 0, the registration condition reg_b
+   (the component ids the script names have a description) -- and ONE more contract, the open finding
+   pack-assign-then-remove-same-component:
+
+     within one pack (the consecutive commands of one thread on one entity in one locked section) every component that
+     is assigned is assigned by the LAST command of the pack that names it -- no component is assigned and removed
+     afterwards without being assigned again later in the pack (ar_ok), unless the pack destroys its entity at once
+     (destroyNow: the write loop of applyCommandPack is not reached) or goes through the null handle (skipped).
+
+   The contract is exact (C05_pack_contract_exact: outside it, a pack on a live target ends in Err NullDeref).
+   It is decidable and stated three ways: on the model's packs at every flush (ar_script; pack_ar), and on the
+   SPECIFICATION's buffers along the specification's run, exact (xare_script: the maximal runs of one buffer's commands
+   on one issue number, together with "every handle used while locked has been issued" -- a command through a handle
+   not issued yet is recorded through the null handle and splits the pack around it) or plain (xar_script: in no run a
+   component is assigned and removed afterwards; sufficient without the condition on handles). *)
+From Mustache.proofs Require Import ManagerTotal LockedTotalPack LockedTotalFlush LockedTotalMain LockedTotalSpec.
+
+(* (13) the contract says exactly that the component set the mask loop of applyCommandPack ends with (pmask, from any
+   initial set fm) contains every component the pack assigns; the write loop move-constructs the temporary of every
+   assign command into that set and returns Err NullDeref for a component it lacks *)
+Theorem C05_contract_meaning : forall p,
+  ar_ok p = true <-> forall h c n, In (AAssign h c n) p -> forall fm, mhas (pmask p fm) c = true.
+Proof. exact ar_ok_meaning. Qed.
+Print Assumptions C05_contract_meaning.
+
+(* the plain contract implies the exact one, pack by pack *)
+Theorem C05_plain_contract_stronger : forall p, pack_ap p = true -> pack_ar p = true.
+Proof. exact pack_ap_ar. Qed.
+Print Assumptions C05_plain_contract_stronger.
+
+(* the exact contract read off the specification's buffers implies the contract on the model's packs, provided no
+   recorded command goes through the null handle (NNl); the plain one needs no such proviso *)
+Theorem C05_contract_on_specification : forall cis s hs x, LR cis s hs x ->
+  (NNl (bufs s) -> xpacks_e x = true -> packs_ar s = true) /\ (xpacks_p x = true -> packs_ar s = true).
+Proof. intros cis s hs x HR. split; [apply (xe_packs_ok cis s hs x HR)|apply (xap_packs_ok cis s hs x HR)]. Qed.
+Print Assumptions C05_contract_on_specification.
+
+(* (14) FORWARD: one pack.  From a state of the flush invariant FInv (part 3) and of the shape invariant TI, a pack of
+   recorded commands (brel) that names described component ids only (cmd_reg) and satisfies the contract is applied
+   without Err, whatever it does: creation of its entity, an entity that is not alive any more, destroyNow in the
+   middle, one externalMove, values written in place.  No hypothesis on x_viol: staying inside the contract of the
+   interface is needed for the refinement (10), not for totality. *)
+Theorem C05_pack_total : forall cis tid tl s hs x h p xp rem',
+  FInv cis s hs x (xrem xp ++ rem') -> TI cis s -> nth_error (tmps s) tid = Some tl ->
+  p <> [] -> allh h p -> brel cis hs tl p xp -> mcf p ->
+  Forall (cmd_reg (length cis)) p -> pack_ar p = true ->
+  exists s', apply_pack tid s p = Ok s' /\ TI cis s'.
+Proof. exact T_pack. Qed.
+Print Assumptions C05_pack_total.
+
+(* ... and THE CONTRACT IS EXACT: under the same hypotheses, a pack whose target is alive when the pack is reached, or
+   which creates its target (pack_live), and which is outside the contract ends in Err NullDeref -- the open finding
+   pack-assign-then-remove-same-component, for every state and every such pack *)
+Theorem C05_pack_contract_exact : forall cis tid tl s hs x h p xp rem',
+  FInv cis s hs x (xrem xp ++ rem') -> TI cis s -> nth_error (tmps s) tid = Some tl ->
+  p <> [] -> allh h p -> brel cis hs tl p xp -> mcf p ->
+  Forall (cmd_reg (length cis)) p -> pack_live s p = true -> pack_ar p = false ->
+  apply_pack tid s p = Err NullDeref.
+Proof. exact N_pack. Qed.
+Print Assumptions C05_pack_contract_exact.
+
+(* (15) FORWARD: the flush at the outermost unlock returns Ok; afterwards every buffer is empty *)
+Theorem C05_flush_total : forall cis s hs x,
+  LR cis s hs x -> cis_ok cis -> within (length hs) -> x_viol (x_flush (xw_lock x 0)) = x_viol x ->
+  TI cis s -> Forall (Forall (cmd_reg (length cis))) (bufs s) -> packs_ar s = true ->
+  exists s', flush (set_lock s 0) = Ok s' /\ TI cis s' /\ bufs s' = map (fun _ => []) (bufs s) /\
+             lockc s' = 0 /\ nthreads s' = nthreads s.
+Proof. exact flush_total. Qed.
+Print Assumptions C05_flush_total.
+
+(* (16) FORWARD: one operation of the alphabet, in any lock state.  LT = LR + TI + the recorded commands name described
+   component ids + one buffer per thread while locked.  ar_guard: when the operation is an unlock that flushes, the
+   packs satisfy the contract.  The last clause: as long as every handle used while locked has been issued
+   (xiss_guard), no recorded command goes through the null handle. *)
+Theorem C05_step_total : forall cis typed s hs x o,
+  LT cis s hs x -> cis_ok cis -> alphaL_b cis o = true -> reg_b cis o = true ->
+  x_viol x = 0 -> x_viol (x_step x o) = 0 -> ar_guard s o = true ->
+  within (length hs + (if ManagerTotal.is_create o then 1 else 0)) ->
+  exists s' hs', mstep typed (s, hs) o = Ok (s', hs') /\ LT cis s' hs' (x_step x o) /\
+                 length hs' = length hs + (if ManagerTotal.is_create o then 1 else 0) /\
+                 (NNl (bufs s) -> xiss_guard x o = true -> NNl (bufs s')).
+Proof. exact mstepL_total. Qed.
+Print Assumptions C05_step_total.
+
+(* (17) THE RUN IS TOTAL: for every script over the alphabet with lock / unlock that names described component ids
+   only (reg_b), stays inside the contract of the interface (x_viol = 0), issues fewer than 16 777 000 handles and
+   satisfies the pack contract (exact form, on the specification's run), the model run does not end in Err *)
+Theorem C05_model_run_total : forall typed n cis ops,
+  cis_ok cis -> forallb (alphaL_b cis) ops = true -> forallb (reg_b cis) ops = true ->
+  x_viol (xrun n cis ops) = 0 -> within (creates ops) -> xare_script n cis ops = true ->
+  exists s hs, mrun typed n cis ops = Ok (s, hs) /\ length hs = creates ops.
+Proof. exact locked_run_total. Qed.
+Print Assumptions C05_model_run_total.
+
+(* ... with the plain contract, whatever handles the script uses *)
+Theorem C05_model_run_total_plain : forall typed n cis ops,
+  cis_ok cis -> forallb (alphaL_b cis) ops = true -> forallb (reg_b cis) ops = true ->
+  x_viol (xrun n cis ops) = 0 -> within (creates ops) -> xar_script n cis ops = true ->
+  exists s hs, mrun typed n cis ops = Ok (s, hs) /\ length hs = creates ops.
+Proof. exact locked_run_total_plain. Qed.
+Print Assumptions C05_model_run_total_plain.
+
+(* ... with the contract checked on the model's own packs whenever an unlock flushes (ar_script asks nothing of a run
+   that has ended in Err: the theorem shows there is none); the reached state satisfies the invariant LT *)
+Theorem C05_model_run_total_packs : forall typed n cis ops,
+  cis_ok cis -> forallb (alphaL_b cis) ops = true -> forallb (reg_b cis) ops = true ->
+  x_viol (xrun n cis ops) = 0 -> within (creates ops) -> ar_script typed n cis ops = true ->
+  exists s hs, mrun typed n cis ops = Ok (s, hs) /\ length hs = creates ops /\ LT cis s hs (xrun n cis ops).
+Proof. exact locked_run_total_LT. Qed.
+Print Assumptions C05_model_run_total_packs.
+
+(* (18) the refinement theorems of part 3 WITHOUT the hypothesis on the model run *)
+Theorem C05_locked_refines_total : forall typed n cis ops,
+  cis_ok cis -> forallb (alphaL_b cis) ops = true -> forallb (reg_b cis) ops = true ->
+  x_viol (xrun n cis ops) = 0 -> within (creates ops) -> xare_script n cis ops = true ->
+  refines_on typed n cis ops = true.
+Proof. exact locked_refines_total. Qed.
+Print Assumptions C05_locked_refines_total.
+
+Theorem C05_locked_refines_total_plain : forall typed n cis ops,
+  cis_ok cis -> forallb (alphaL_b cis) ops = true -> forallb (reg_b cis) ops = true ->
+  x_viol (xrun n cis ops) = 0 -> within (creates ops) -> xar_script n cis ops = true ->
+  refines_on typed n cis ops = true.
+Proof. exact locked_refines_total_plain. Qed.
+Print Assumptions C05_locked_refines_total_plain.
+
+Theorem C05_locked_refines_total_packs : forall typed n cis ops,
+  cis_ok cis -> forallb (alphaL_b cis) ops = true -> forallb (reg_b cis) ops = true ->
+  x_viol (xrun n cis ops) = 0 -> within (creates ops) -> ar_script typed n cis ops = true ->
+  refines_on typed n cis ops = true.
+Proof. exact locked_refines_total_packs. Qed.
+Print Assumptions C05_locked_refines_total_packs.
+
+Theorem C05_locked_refinement_total : forall typed n cis ops,
+  cis_ok cis -> forallb (alphaL_b cis) ops = true -> forallb (reg_b cis) ops = true ->
+  x_viol (xrun n cis ops) = 0 -> within (creates ops) -> xare_script n cis ops = true ->
+  exists s hs, mrun typed n cis ops = Ok (s, hs) /\ length hs = x_count (xrun n cis ops) /\
+    forall k,
+      match find_ent (xrun n cis ops) k with
+      | Some e => exists e', abs_ent s k (nth k hs null_handle) = Some e' /\ ent_match e e' = true
+      | None => abs_ent s k (nth k hs null_handle) = None
+      end.
+Proof. exact locked_refinement_total. Qed.
+Print Assumptions C05_locked_refinement_total.
+
+(* ---- the hypotheses are satisfiable ---- *)
+(* three threads (the owner 0 and the workers 1, 2), a nested lock, a pack that creates its entity and assigns to it
+   (thread 2, entity #2), a pack on a target an earlier pack has destroyed (thread 2 on #1, destroyed by the buffer of
+   thread 1, which is applied first), a marked entity, and -- after the inner unlock -- a pack that assigns component
+   2, removes it and assigns it again (thread 1 on #0): inside the exact contract, outside the plain one *)
+Definition script_u : list xop :=
+  [XoCreate 0 1 [] false; XoCreate 0 3 [] false; XoUpdate; XoLock; XoLock;
+   XoAssign 1 0 1 (Some 5%Z); XoCreate 2 4 [] false; XoAssign 2 2 0 (Some 9%Z); XoDestroyNow 1 1;
+   XoRemove 2 1 0 true; XoAssign 2 1 2 None;
+   XoRemove 0 0 0 true; XoDestroy 2 0;
+   XoUnlock; XoAssign 1 0 2 None; XoRemove 1 0 2 true; XoAssign 1 0 2 (Some 4%Z); XoUnlock]%N.
+
+Example C05_total_nonvacuous :
+  cis_ok cis3 /\ forallb (alphaL_b cis3) script_u = true /\ forallb (reg_b cis3) script_u = true /\
+  x_viol (xrun 16 cis3 script_u) = 0 /\ within (creates script_u) /\
+  xare_script 16 cis3 script_u = true /\ xar_script 16 cis3 script_u = false /\
+  (forall typed, ar_script typed 16 cis3 script_u = true) /\
+  (* what the specification has recorded when the outermost unlock arrives *)
+  firstn 3 (x_bufs (xrun 16 cis3 (removelast script_u))) =
+    [[XRemove 0 0];
+     [XAssign 0 1 (Some 5%Z); XDestroyNow 1; XAssign 0 2 None; XRemove 0 2; XAssign 0 2 (Some 4%Z)];
+     [XCreate 2 4%N []; XAssign 2 0 (Some 9%Z); XRemove 1 0; XAssign 1 2 None; XDestroy 0]] /\
+  map (fun e => (e_k e, e_comps e)) (x_ents (xrun 16 cis3 script_u)) =
+    [(0, [(1, Some 5%Z); (2, Some 4%Z)]); (2, [(0, Some 9%Z); (2, Some 1003%Z)])].
+Proof.
+  split; [exact cis3_ok|]. do 6 (split; [vm_compute; reflexivity|]).
+  split; [intros typed; destruct typed; vm_compute; reflexivity|]. split; vm_compute; reflexivity.
+Qed.
+
+(* the theorems applied (not evaluated) to script_u *)
+Example C05_total_on_script_u : forall typed,
+  (exists s hs, mrun typed 16 cis3 script_u = Ok (s, hs) /\ length hs = 3) /\ refines_on typed 16 cis3 script_u = true.
+Proof.
+  intros typed. destruct C05_total_nonvacuous as (Hok & Ha & Hr & Hv & Hb & He & _).
+  split; [exact (C05_model_run_total typed 16 cis3 script_u Hok Ha Hr Hv Hb He)|exact (C05_locked_refines_total typed 16 cis3 script_u Hok Ha Hr Hv Hb He)].
+Qed.
+
+(* a script inside the plain contract *)
+Example C05_total_plain_nonvacuous :
+  forallb (alphaL_b cis3) script_a = true /\ forallb (reg_b cis3) script_a = true /\ x_viol (xrun 16 cis3 script_a) = 0 /\
+  within (creates script_a) /\ xar_script 16 cis3 script_a = true /\
+  forall typed, refines_on typed 16 cis3 script_a = true.
+Proof.
+  assert (Ha : forallb (alphaL_b cis3) script_a = true) by (vm_compute; reflexivity).
+  assert (Hr : forallb (reg_b cis3) script_a = true) by (vm_compute; reflexivity).
+  assert (Hv : x_viol (xrun 16 cis3 script_a) = 0) by (vm_compute; reflexivity).
+  assert (Hb : within (creates script_a)) by (vm_compute; reflexivity).
+  assert (Hp : xar_script 16 cis3 script_a = true) by (vm_compute; reflexivity).
+  repeat (split; [assumption|]). intros typed. exact (C05_locked_refines_total_plain typed 16 cis3 script_a cis3_ok Ha Hr Hv Hb Hp).
+Qed.
+
+(* (14) (15) (16) on the reached locked state st_l of part 3 (three recorded packs in two buffers): the invariant LT
+   holds there by (17), so the state is in TI and its commands are registered; the flush and the first pack of thread 1
+   (assign component 1 := 5 to entity #0 and remove its component 0) return Ok *)
+Example C05_forward_nonvacuous :
+  LT cis3 st_l hs_l (xrun 16 cis3 script_l) /\ packs_ar st_l = true /\ pack_ar pack_l = true /\
+  Forall (cmd_reg (length cis3)) pack_l /\ TI cis3 state_l /\
+  (exists s', flush (set_lock st_l 0) = Ok s' /\ TI cis3 s') /\
+  (exists s', apply_pack 1 state_l pack_l = Ok s' /\ TI cis3 s') /\
+  (exists s' hs', mstep true (st_l, hs_l) (XoAssign 2 1 2 None) = Ok (s', hs') /\
+                  LT cis3 s' hs' (x_step (xrun 16 cis3 script_l) (XoAssign 2 1 2 None))).
+Proof.
+  assert (Ha : forallb (alphaL_b cis3) script_l = true) by (vm_compute; reflexivity).
+  assert (Hr : forallb (reg_b cis3) script_l = true) by (vm_compute; reflexivity).
+  assert (Hv : x_viol (xrun 16 cis3 script_l) = 0) by (vm_compute; reflexivity).
+  assert (Hb : within (creates script_l)) by (vm_compute; reflexivity).
+  assert (Hg : ar_script true 16 cis3 script_l = true) by (vm_compute; reflexivity).
+  pose proof (locked_run_LT true 16 cis3 script_l st_l hs_l cis3_ok Ha Hr Hv Hb Hg run_l) as HL.
+  destruct C05_flush_nonvacuous as (_ & HR & Hbl & _ & Hvf & _).
+  destruct C05_pack_nonvacuous as (_ & _ & Htl & Hne & Hall & HB & Hcf & _ & _ & HF & Hrem).
+  assert (Hpk : packs_ar st_l = true) by (vm_compute; reflexivity).
+  assert (Hpa : pack_ar pack_l = true) by (vm_compute; reflexivity).
+  assert (Hreg : Forall (cmd_reg (length cis3)) pack_l) by (repeat constructor).
+  assert (HT : TI cis3 state_l) by (unfold state_l; apply TI_set_lock; exact (lt_T _ _ _ _ HL)).
+  split; [exact HL|]. split; [exact Hpk|]. split; [exact Hpa|]. split; [exact Hreg|]. split; [exact HT|]. split; [|split].
+  - destruct (C05_flush_total cis3 st_l hs_l _ HR cis3_ok Hbl Hvf (lt_T _ _ _ _ HL) (lt_reg _ _ _ _ HL) Hpk) as (s' & E & HT' & _).
+    exists s'. split; [exact E|exact HT'].
+  - apply (C05_pack_total cis3 1 [Some 5%Z] state_l hs_l (xw_lock (xrun 16 cis3 script_l) 0) (0, 0)%N pack_l xpack_l [SCreate 2 4%N]); try assumption.
+  - destruct (C05_step_total cis3 true st_l hs_l (xrun 16 cis3 script_l) (XoAssign 2 1 2 None) HL cis3_ok) as (s' & hs' & E & HL' & _);
+      try (vm_compute; reflexivity). exists s', hs'. split; [exact E|exact HL'].
+Qed.
+
+(* ---- why the pack contract is a hypothesis: script_x (part 3) satisfies every other hypothesis of
+   C05_model_run_total, fails the contract in each of its three forms, and its run ends in Err NullDeref ---- *)
+Example C05_pack_contract_needed :
+  cis_ok cis3 /\ forallb (alphaL_b cis3) script_x = true /\ forallb (reg_b cis3) script_x = true /\
+  x_viol (xrun 16 cis3 script_x) = 0 /\ within (creates script_x) /\
+  xare_script 16 cis3 script_x = false /\ xar_script 16 cis3 script_x = false /\ ar_script true 16 cis3 script_x = false /\
+  mrun true 16 cis3 script_x = Err NullDeref.
+Proof. split; [exact cis3_ok|]. do 7 (split; [vm_compute; reflexivity|]). vm_compute. reflexivity. Qed.
+
+(* the pack of script_x in the state the outermost unlock finds: C05_pack_contract_exact applies (not evaluated) *)
+Definition st_x : mst := match mrun true 16 cis3 (removelast script_x) with Ok (s, _) => s | Err _ => init 16 cis3 end.
+Definition hs_x : list handle := match mrun true 16 cis3 (removelast script_x) with Ok (_, hs) => hs | Err _ => [] end.
+Lemma run_x : mrun true 16 cis3 (removelast script_x) = Ok (st_x, hs_x).
+Proof. vm_compute. reflexivity. Qed.
+Definition pack_x : list acmd := [AAssign (0, 0)%N 1 0; ARemove (0, 0)%N 1].
+Definition xpack_x : list xcmd := [XAssign 0 1 (Some 5%Z); XRemove 0 1].
+
+Example C05_pack_contract_exact_nonvacuous :
+  bufs st_x = [[AAssign (0, 0) 1 0; ARemove (0, 0) 1]; []; []; []; []; []; []; []; []; []; []; []; []; []; []; []]%N /\
+  pack_live (set_lock st_x 0) pack_x = true /\ pack_ar pack_x = false /\
+  apply_pack 0 (set_lock st_x 0) pack_x = Err NullDeref.
+Proof.
+  assert (Ha : forallb (alphaL_b cis3) (removelast script_x) = true) by (vm_compute; reflexivity).
+  assert (Hr : forallb (reg_b cis3) (removelast script_x) = true) by (vm_compute; reflexivity).
+  assert (Hv : x_viol (xrun 16 cis3 (removelast script_x)) = 0) by (vm_compute; reflexivity).
+  assert (Hb : within (creates (removelast script_x))) by (vm_compute; reflexivity).
+  assert (Hg : ar_script true 16 cis3 (removelast script_x) = true) by (vm_compute; reflexivity).
+  pose proof (locked_run_LT true 16 cis3 (removelast script_x) st_x hs_x cis3_ok Ha Hr Hv Hb Hg run_x) as HL.
+  assert (Hlive : pack_live (set_lock st_x 0) pack_x = true) by (vm_compute; reflexivity).
+  assert (Har : pack_ar pack_x = false) by (vm_compute; reflexivity).
+  split; [vm_compute; reflexivity|]. split; [exact Hlive|]. split; [exact Har|].
+  assert (Erem : xrem (concat (x_bufs (xrun 16 cis3 (removelast script_x)))) = xrem xpack_x ++ []) by (vm_compute; reflexivity).
+  apply (C05_pack_contract_exact cis3 0 [Some 5%Z] (set_lock st_x 0) hs_x (xw_lock (xrun 16 cis3 (removelast script_x)) 0) (0, 0)%N pack_x xpack_x []).
+  - rewrite <- Erem. apply LR_FInv. exact (lt_R _ _ _ _ HL).
+  - apply TI_set_lock. exact (lt_T _ _ _ _ HL).
+  - vm_compute. reflexivity.
+  - discriminate.
+  - repeat constructor.
+  - apply br_cons; [vm_compute; repeat split; lia|]. apply br_cons; [vm_compute; repeat split; lia|]. constructor.
+  - intros b1 h ha m sh b2 E. destruct b1 as [|c1 [|c2 [|c3 b1]]]; discriminate.
+  - repeat constructor.
+  - exact Hlive.
+  - exact Har.
+Qed.
+
+(* the same pack followed by a second assignment of the component is inside the exact contract (not the plain one):
+   the run is total and refines, by the theorem *)
+Definition script_ara : list xop := removelast script_x ++ [XoAssign 0 0 1 (Some 6%Z); XoUnlock]%N.
+Example C05_reassigned_component_is_fine :
+  xare_script 16 cis3 script_ara = true /\ xar_script 16 cis3 script_ara = false /\
+  forall typed, refines_on typed 16 cis3 script_ara = true.
+Proof.
+  split; [vm_compute; reflexivity|]. split; [vm_compute; reflexivity|]. intros typed.
+  apply (C05_locked_refines_total typed 16 cis3 script_ara cis3_ok); vm_compute; reflexivity.
+Qed.
+
+(* ---- why the exact contract asks that every handle used while locked has been issued: between the removal and the
+   second assignment the same thread calls destroy() on a handle it has not been given yet (issue number 7: the null
+   handle).  The specification records nothing for it, its buffer reads assign - remove - assign (inside the exact
+   contract); the implementation records the command, which cuts the pack in two, and the first half -- assign then
+   remove -- ends in Err NullDeref.  Every other hypothesis of C05_model_run_total holds. ---- *)
+Definition script_split : list xop :=
+  [XoCreate 0 1 [] false; XoLock; XoAssign 0 0 1 (Some 5%Z); XoRemove 0 0 1 true; XoDestroy 0 7;
+   XoAssign 0 0 1 (Some 6%Z); XoUnlock]%N.
+Example C05_unissued_handle_splits_pack :
+  forallb (alphaL_b cis3) script_split = true /\ forallb (reg_b cis3) script_split = true /\
+  x_viol (xrun 16 cis3 script_split) = 0 /\ within (creates script_split) /\
+  xpacks_e (xrun 16 cis3 (removelast script_split)) = true /\
+  nth 0 (x_bufs (xrun 16 cis3 (removelast script_split))) [] = [XAssign 0 1 (Some 5%Z); XRemove 0 1; XAssign 0 1 (Some 6%Z)] /\
+  xare_script 16 cis3 script_split = false /\ ar_script true 16 cis3 script_split = false /\
+  mrun true 16 cis3 script_split = Err NullDeref /\
+  (exists s hs, mrun true 16 cis3 (removelast script_split) = Ok (s, hs) /\
+     split_packs (nth 0 (bufs s) []) [] =
+       [[AAssign (0, 0)%N 1 0; ARemove (0, 0)%N 1]; [ADestroy null_handle]; [AAssign (0, 0)%N 1 1]]).
+Proof.
+  do 9 (split; [vm_compute; reflexivity|]). eexists. eexists. split; vm_compute; reflexivity.
+Qed.
